@@ -262,3 +262,49 @@ Definition accept_nth (line : str) (nth : list range) (d : delimiter) : res str 
   do s <- nth_transformer nth tokens;
   strip_last_delimiter s d.
 
+
+(* ---- options.go nthTransformer, template form ("{n}", "{1..2}", literal text between them).
+   The template is given parsed (the regexp {[0-9,-.]+}|{n} and splitNth are the harness's job, as the
+   range list is for Transform); a holder is str / index / nth exactly as in NthParts. ---- *)
+Inductive nth_part := PStr (s : str) | PIndex | PNth (nth : list range).
+
+Fixpoint nth_template (parts : list nth_part) (d : delimiter) (tokens : list token) (index : Z) : res str :=
+  match parts with
+  | [] => Ok []
+  | holder :: rest =>
+      do s <- match holder with
+              | PNth nth => do ts <- transform tokens nth; strip_last_delimiter (join_tokens ts) d
+              | PIndex => Ok (if 0 <=? index then itoa index else [])
+              | PStr s => Ok s
+              end;
+      do r <- nth_template rest d tokens index;
+      Ok (s ++ r)
+  end.
+
+(* --with-nth TEMPLATE: the text shown and searched (core.go: nthTransformer(tokens, itemIndex)) *)
+Definition with_nth_template (parts : list nth_part) (line : str) (d : delimiter) (index : Z) : res str :=
+  do tokens <- tokenize line d; nth_template parts d tokens index.
+
+(* --accept-nth TEMPLATE: item.acceptNth strips the last delimiter of the whole output once more *)
+Definition accept_nth_template (parts : list nth_part) (line : str) (d : delimiter) (index : Z) : res str :=
+  do tokens <- tokenize line d;
+  do s <- nth_template parts d tokens index;
+  strip_last_delimiter s d.
+
+(* ---- terminal.go replacePlaceholder, token type {EXPR,...} with the r flag (no quoting): its own copy
+   of the delimiter stripping, then strings.TrimSpace unless the s flag is given ---- *)
+Definition placeholder_fields (line : str) (ranges : list range) (d : delimiter) (preserve : bool) : res str :=
+  do tokens <- tokenize line d;
+  do trans <- transform tokens ranges;
+  let s := join_tokens trans in
+  do s1 <-
+    match d with
+    | DStr sep => Ok (trim_suffix s sep)
+    | DRegex rx =>
+        match rev (rx s) with
+        | (b, e) :: _ => if Nat.eqb e (length s) then slice s 0 b else Ok s
+        | [] => Ok s
+        end
+    | DAwk => Ok s
+    end;
+  Ok (if preserve then s1 else trim_both is_space s1).
